@@ -154,6 +154,8 @@ class ExtMixin(object):
             return Unknown("chunklen")
         if isinstance(v, SortedV):
             return Num(ep.const(len(v.items)))
+        if isinstance(v, Num) or (isinstance(v, Const) and (v.v is None or isinstance(v.v, bool))) or isinstance(v, (FuncV, BufV)):
+            raise RaiseSignal(ExcV(ExtV("builtins.TypeError"), [Const("object of type %s has no len()" % type(v).__name__)]), node)
         self.err(node, "len(%r)" % (v,))
 
     def x_range(self, args, kwargs, node, env):
@@ -498,6 +500,8 @@ class ExtMixin(object):
         return Const(r) if isinstance(r, bool) else r
 
     def x_getattr(self, args, kwargs, node, env):
+        if isinstance(args[1], Const) and not isinstance(args[1].v, str):
+            raise RaiseSignal(ExcV(ExtV("builtins.TypeError"), [Const("attribute name must be string")]), node)
         if not (isinstance(args[1], Const) and isinstance(args[1].v, str)):
             self.err(node, "getattr with non-constant name")
         if len(args) == 3:
@@ -650,6 +654,8 @@ class ExtMixin(object):
         # super() / super(Class, self)
         if args:
             cls, inst = args[0], args[1]
+            if isinstance(cls, InstV) and cls.label is None:
+                raise RaiseSignal(ExcV(ExtV("builtins.TypeError"), [Const("super() argument 1 must be a type")]), node)
             if not isinstance(cls, ClassV):
                 self.err(node, "super() first argument")
             return SuperV(cls.ci, inst)
